@@ -444,7 +444,7 @@ func (e *Engine) explore(entry *ssa.Function, expectBlock bool) *RunResult {
 					stop = true
 				}
 				if e.cfg.WallBudget > 0 && time.Since(t0) > e.cfg.WallBudget {
-					addIncon(fmt.Sprintf("wall budget %s exhausted after %d paths (queue %d)", e.cfg.WallBudget, rr.Paths, len(queue)))
+					addIncon(fmt.Sprintf("wall budget %s exhausted (bound not completed)", e.cfg.WallBudget))
 					stop = true
 				}
 				cond.Broadcast()
